@@ -244,6 +244,31 @@ def close_digest(a, b):
     return True
 
 
+def symlink_case(rng, root):
+    """a directory of the layout is a symbolic link: "lib/chip.xbb" includes "../common/mz.xbb", which the file system resolves
+    from the link's TARGET; a decoy of the same name sits where a textual normalisation of the path would look (-> message or None)"""
+    import blackbird
+    vend = os.path.join(root, "vendor", "libs")
+    proj = os.path.join(root, "proj")
+    os.makedirs(os.path.join(vend, "v2"))
+    os.makedirs(os.path.join(vend, "common"))
+    os.makedirs(os.path.join(proj, "common"))
+    a, b = rng.choice([0.25, 0.5, 0.75]), rng.choice([0.1, 0.2])
+    open(os.path.join(vend, "common", "mz.xbb"), "w").write("name MZ\nversion 1.0\nBSgate(%s, {phi}) | [0, 1]\nRgate({phi}) | 1\n" % b)
+    open(os.path.join(proj, "common", "mz.xbb"), "w").write("name MZ\nversion 1.0\nRgate({phi}) | 0\nBSgate(%s, 0.25) | [0, 1]\n" % b)
+    open(os.path.join(vend, "v2", "chip.xbb"), "w").write('name Chip\nversion 1.0\ninclude "../common/mz.xbb"\nSgate(%s) | 3\nMZ(phi=%s) | [5, 3]\n' % (a, a))
+    os.symlink(os.path.join(vend, "v2"), os.path.join(proj, "lib"))
+    open(os.path.join(proj, "main.xbb"), "w").write('name main\nversion 1.0\ninclude "lib/chip.xbb"\nChip | [2, 4]\nVac | 0\n')
+    want = "name main\nversion 1.0\nSgate(%s) | 2\nBSgate(%s, %s) | [4, 2]\nRgate(%s) | 2\nVac | 0\n" % (a, b, a, a)
+    try:
+        p = blackbird.load(os.path.join(proj, "main.xbb"))
+    except Exception as e:  # noqa: BLE001
+        return "a layout with a symbolic link fails to load: %s: %s" % (type(e).__name__, str(e)[:120])
+    if not close_digest(ops_digest(p), ops_digest(blackbird.loads(want))):
+        return "include through a symbolic link: %s, expected %s" % (ops_digest(p), ops_digest(blackbird.loads(want)))
+    return None
+
+
 def run(tier, seed):
     res = Result(PROP, tier, seed)
     rng = random.Random(seed)
@@ -437,6 +462,15 @@ def run(tier, seed):
                     res.violate("a call of an included program with %s is accepted" % kind, {"check": "include-fault", "files": {k.replace(root, "<root>"): v for k, v in files.items()}, "main": main_path.replace(root, "<root>")})
                 os.chdir(scratch)
                 shutil.rmtree(root, ignore_errors=True)
+            for k in range(3 if quick else 30):
+                impl.reset_tables()
+                msg = symlink_case(rng, os.path.join(scratch, "SL%d" % k))
+                res.case("symlink-%d" % k, True, None)
+                res.count("symlink-layout")
+                if msg:
+                    ok = False
+                    res.violate(msg, {"check": "symlink"})
+                    break
             res.oblige("correspondence: load(main) = model inlining = load(inlined text), for 3 working directories; bad calls refused", "correspondence", ok)
             model.close()
         else:
@@ -454,6 +488,15 @@ def run(tier, seed):
 
 
 def replay(rep):
+    if rep["input"].get("check") == "symlink":
+        import impl  # noqa: F401
+        d = tempfile.mkdtemp(prefix="bbverif.", dir="/var/tmp")
+        try:
+            msg = symlink_case(random.Random(0), os.path.join(d, "SL"))
+        finally:
+            shutil.rmtree(d, ignore_errors=True)
+        print(msg)
+        return 1 if msg else 0
     import blackbird
     import impl
     inp = rep["input"]
